@@ -676,7 +676,11 @@ primaryexpr(struct scope *s)
 		assert(*src == '\'');
 		++src;
 		src += decodechar(src, &chr, NULL, "character constant", &tok.loc);
-		e = mkconstexpr(t, chr);
+		/* an unprefixed constant has the value of a char object, converted to int */
+		if (tok.lit[0] == '\'' && typechar.u.basic.issigned && chr <= 0xff)
+			e = mkconstexpr(t, (signed char)chr);
+		else
+			e = mkconstexpr(t, chr);
 		if (*src != '\'')
 			error(&tok.loc, "character constant contains more than one character: %c", *src);
 		next();
